@@ -4,7 +4,7 @@ from vf import ops as O
 from vf.ops import And, Or, Not, ite, Implies
 from vf.tensor import Tn, Unsupported
 from vf.values import Opaque, StackList
-from vf.contract import Contract, same
+from vf.contract import Contract, same, num_eq
 from vf.world import LoopSpec, defined_loop
 from vf.spec import spec_tensor
 from vf.lib import Sum
@@ -280,9 +280,12 @@ class DeepLiftShap(Contract):
         if cfg['refs'] != 'unseeded':
             def el(e, *i):
                 c, l = i[-2], i[-1]
+                got, want = res.elem(e, *i), self.attribution(env, cfg, e, by_pair_index=False)(*i)
+                if not O.any_sym(got, want):
+                    return num_eq(got, want)       # concrete interpretation (replay, bounded layer)
                 reveal = lambda j: And(divmod_unique(e, j), O.eq(self.pv(e, j, c, l), self.pair(env, cfg, e, j)(c, l)))
                 with O.sum_lemmas(reveal):
-                    goal = O.smart_eq(O.to_z3(res.elem(e, *i)), O.to_z3(self.attribution(env, cfg, e, by_pair_index=False)(*i)))
+                    goal = O.smart_eq(O.to_z3(got), O.to_z3(want))
                 if cfg['mode'] == 'raw':
                     return Implies(reveal(i[0]), goal)
                 return goal
@@ -294,8 +297,12 @@ class DeepLiftShap(Contract):
                 return out + [('references-rank', False)]
             out.append(('references:shape', And(*[O.eq(x, y) for x, y in zip(refs.shape, rshape)])))
             if cfg['refs'] != 'unseeded':
-                out.append(('references:shuffle-j-of-example-e', O.forall(rshape, lambda e, j, c, l: Implies(divmod_unique(e, j), O.smart_eq(
-                    O.to_z3(refs.elem(e, j, c, l)), O.to_z3(self.ref_row(env, e, j).elem(0, c, l)))))))
+                def rel(e, j, c, l):
+                    got, want = refs.elem(e, j, c, l), self.ref_row(env, e, j).elem(0, c, l)
+                    if not O.any_sym(got, want):
+                        return num_eq(got, want)
+                    return Implies(divmod_unique(e, j), O.smart_eq(O.to_z3(got), O.to_z3(want)))
+                out.append(('references:shuffle-j-of-example-e', O.forall(rshape, rel)))
         return out
 
     def path_post(self, a, cfg, ctx):
